@@ -427,7 +427,25 @@ def r8_undecodable_path_is_an_error(ctx):
     c03.r1_decode_once(Renamed(ctx, "C18.R8", "a malformed request path (escapes that are not UTF-8) becomes the 400 of the strict decode; it is never repaired and routed"))
 
 
-RULES = [("C18.R8", r8_undecodable_path_is_an_error), ("C18.R7", r7_unreadable_content_type), ("C18.R6", r_frame_errors_are_errors), ("C18.R5", r5_no_client_sized_allocation), ("C18.R1", r1_accept_tolerates_errors), ("C18.R2", r2_isolation), ("C18.R3", r3_errors_become_responses), ("C18.R4", r4_panic_census)]
+def r9_oversized_bodies_are_counted(ctx):
+    """`oversized requests never crash or wedge the server`: the running total every body frame is counted into is what the limit is
+    compared with, so a body over the limit is refused however it is framed.  This is C11.R1, re-evaluated here (adversary change C18-M:
+    `bytes_read += len` became `bytes_read = len`; sixty-four 400-byte chunks passed a 1024-byte limit and were buffered whole)."""
+    from . import c11
+    from .lib_c01 import Renamed
+    c11.r1_cap_before_delivery(Renamed(ctx, "C18.R9", "every frame of a request body is added to the running total that is compared with the limit before the frame is delivered"))
+
+
+def r10_malformed_handshake_is_refused(ctx):
+    """`its status is 4xx or 5xx whenever the request was malformed`: a websocket handshake lacking a mandatory header is answered 400.
+    This is C20.R1, re-evaluated here (adversary change C18-N: `.map(as_bytes) != Some(b"13")` became `.is_some_and(|v| v.as_bytes() !=
+    b"13")`, so a handshake without Sec-WebSocket-Version was upgraded)."""
+    from . import c20
+    from .lib_c01 import Renamed
+    c20.r1_four_checks(Renamed(ctx, "C18.R10", "a websocket handshake is upgraded only after each mandatory header was found and tested; every other exit is a 400"))
+
+
+RULES = [("C18.R10", r10_malformed_handshake_is_refused), ("C18.R9", r9_oversized_bodies_are_counted), ("C18.R8", r8_undecodable_path_is_an_error), ("C18.R7", r7_unreadable_content_type), ("C18.R6", r_frame_errors_are_errors), ("C18.R5", r5_no_client_sized_allocation), ("C18.R1", r1_accept_tolerates_errors), ("C18.R2", r2_isolation), ("C18.R3", r3_errors_become_responses), ("C18.R4", r4_panic_census)]
 
 _S = "dropshot/src/server.rs"
 _I32 = " " * 32
